@@ -442,6 +442,81 @@ fn check_backend<F: Backend>(
             st.inc("interval_evals_panicked(C11)");
         }
     }
+    // ---------------- a simplified shape must still bind by identity, whatever
+    // the provenance of the storage it was built in: the same trace is used
+    // to simplify once into fresh storage and once into storage recycled
+    // from an unrelated shape that has the same number of variables (other
+    // variables, or the same ones met in another order)
+    {
+        let bx: Vec<Interval> = pos
+            .iter()
+            .map(|c| Interval::new(c - 0.25, c + 0.25))
+            .collect();
+        let itape = shape.interval_tape(Default::default());
+        let mut iev = Shape::<F>::new_interval_eval();
+        let tr = guarded(|| iev.eval_with_vars(&itape, bx[0], bx[1], bx[2], &sv).map(|r| r.1.cloned()));
+        if let Ok(Ok(Some(trace))) = tr {
+            // the unrelated donor: same variable count, reversed encounter
+            // order for the shared ones, fresh variables for the rest
+            let mut dctx = Context::new();
+            let mut acc = dctx.constant(0.0);
+            let mut donors: Vec<Var> = used.iter().rev().copied().collect();
+            if rng.chance(0.5) {
+                for d in donors.iter_mut() {
+                    if matches!(d, Var::V(_)) {
+                        *d = Var::new();
+                    }
+                }
+            }
+            for (k, d) in donors.iter().enumerate() {
+                let n = dctx.var(*d);
+                let t = dctx.mul(n, (k + 2) as f32).unwrap();
+                acc = dctx.add(acc, t).unwrap();
+            }
+            let donor = Shape::<F>::new(&dctx, acc).unwrap();
+            if donor.inner().vars().len() == vmap.len() {
+                let mut ws = Default::default();
+                child::note(&format!("C14 {name} simplify into foreign storage | program {:016x}", p.hash()));
+                let fresh = guarded(|| shape.simplify(&trace, Default::default(), &mut ws));
+                let foreign_storage = donor.recycle();
+                if let (Ok(Ok(fresh)), Some(storage)) = (fresh, foreign_storage) {
+                    let foreign = match guarded(|| shape.simplify(&trace, storage, &mut ws)) {
+                        Ok(Ok(s)) => s,
+                        Ok(Err(e)) => return Err(v("simplify_foreign_storage_error", format!("simplify with storage recycled from another shape failed: {e}"), setup())),
+                        Err(pi) => return Err(v("simplify_foreign_storage_panic", format!("simplify with storage recycled from another shape panicked: {}", pi.msg), setup())),
+                    };
+                    st.inc("foreign_storage_simplifications");
+                    let mut ev = Shape::<F>::new_point_eval();
+                    let a = ev.eval_with_vars(&fresh.point_tape(Default::default()), pos[0], pos[1], pos[2], &sv).map(|r| r.0);
+                    let b2 = ev.eval_with_vars(&foreign.point_tape(Default::default()), pos[0], pos[1], pos[2], &sv).map(|r| r.0);
+                    match (a, b2) {
+                        (Ok(a), Ok(b2)) => {
+                            if !same_bits(a, b2) {
+                                return Err(v("simplify_foreign_storage_binding", format!("the shape simplified into storage recycled from an unrelated shape evaluates to {b2:?}, simplified into fresh storage to {a:?} (same trace, same point, same variables)"), setup()));
+                            }
+                        }
+                        (Ok(_), Err(e)) => return Err(v("simplify_foreign_storage_binding", format!("the shape simplified into storage recycled from an unrelated shape rejects the variables its parent accepts: {e}"), setup())),
+                        _ => {}
+                    }
+                    // bulk path as well (its own scratch layout)
+                    let xs = [pos[0], pos[0] + 0.1];
+                    let ys = [pos[1], pos[1] - 0.1];
+                    let zs = [pos[2], pos[2] + 0.05];
+                    let mut bev = Shape::<F>::new_float_slice_eval();
+                    let fa: Option<Vec<f32>> = bev.eval_with_vars(&fresh.float_slice_tape(Default::default()), &xs, &ys, &zs, &sv).ok().map(|o| o.to_vec());
+                    let fb: Option<Vec<f32>> = bev.eval_with_vars(&foreign.float_slice_tape(Default::default()), &xs, &ys, &zs, &sv).ok().map(|o| o.to_vec());
+                    if let (Some(fa), fb) = (fa, fb) {
+                        let same = fb.as_ref().map(|fb| fa.len() == fb.len() && fa.iter().zip(fb.iter()).all(|(p, q)| same_bits(*p, *q))).unwrap_or(false);
+                        if !same {
+                            return Err(v("simplify_foreign_storage_binding", format!("bulk evaluation of the shape simplified into foreign storage gives {fb:?}, into fresh storage {fa:?}"), setup()));
+                        }
+                    }
+                }
+            }
+        } else {
+            st.inc("foreign_storage_stage_without_trace");
+        }
+    }
     let _ = fbits(0.0);
     Ok(())
 }
